@@ -302,7 +302,11 @@ func (fr *Frame) run(st0 *State, reach0 Term) []retPoint {
 						}
 					}
 					for j, c := range fr.fc.RetAssert {
-						if k := fr.fc.RetAssertK[j]; k != 0 && k != ord {
+						if k := fr.fc.RetAssertK[j]; k == -1 {
+							if ord != countReturns(fr.fn) {
+								continue
+							}
+						} else if k != 0 && k != ord {
 							continue
 						}
 						fr.obligeParts(fmt.Sprintf("ret%d.assert%s.%d", ord, labelSuffix(c), j+1), "ret-assert", reach, env, c)
@@ -1907,6 +1911,18 @@ func (lr *loopRun) backSuffix() string {
 
 // returnOrdinal: the position of a return instruction among the function's
 // returns in source order (stable under line shifts).
+func countReturns(fn *ssa.Function) int {
+	n := 0
+	for _, b := range fn.Blocks {
+		for _, in := range b.Instrs {
+			if _, ok := in.(*ssa.Return); ok {
+				n++
+			}
+		}
+	}
+	return n
+}
+
 func returnOrdinal(fn *ssa.Function, r *ssa.Return) int {
 	var rs []*ssa.Return
 	for _, b := range fn.Blocks {
